@@ -27,3 +27,9 @@ with open(os.path.join(HERE, "optyx_sa", "baseline_functions.txt"), "w") as fh:
 print(len(rows), "functions")
 with open(os.path.join(HERE, "optyx_sa", "baseline_stmts.json"), "w") as fh:
     json.dump(stm, fh, indent=0, sort_keys=True)
+
+from optyx_sa.desugar import module_scalar_constants
+consts = {m.rel: sorted(module_scalar_constants(ast.parse(m.source))) for m in p.modules.values()}
+with open(os.path.join(HERE, "optyx_sa", "baseline_consts.json"), "w") as fh:
+    json.dump(consts, fh, indent=0, sort_keys=True)
+print(sum(len(v) for v in consts.values()), "module-level scalar constants")
